@@ -330,6 +330,12 @@ where
         let mut left_cumulative = cdf.next().expect("cdf is not empty");
         let cdf = cdf.chain(core::iter::once(wrapping_pow2(PRECISION)));
 
+        // `symbols` must yield exactly `probabilities.len()` symbols.
+        let symbols = symbols.into_iter().collect::<Vec<_>>();
+        if symbols.len() != probabilities.len() {
+            return Err(());
+        }
+
         let symbol_table = symbols
             .into_iter()
             .zip(cdf)
